@@ -282,7 +282,96 @@ def generate(rng, tier, index):
         ops.append({"s": s, "op": "find_answer"})
     ops = add_fault(rng, ops)
     ops = add_rejected(rng, ops)
+    ops = add_augmented(rng, ops, n_sessions)
     return {"prop": ID, "sessions": sessions, "ops": ops}
+
+
+AUG_INT = ("add", "sub")
+AUG_BOOL = ("and", "or", "xor")
+
+
+def add_augmented(rng, ops, n_sessions, p=0.22):
+    """User code that keeps a sub-expression object and goes on with an augmented assignment:
+
+        a = x + y;  solver.ensure(a <= 3);  t = a;  t += z;  solver.ensure(t >= 2)
+
+    The DSL's expression nodes are values: the first constraint must keep meaning x + y <= 3.  The
+    op is an ordinary `ensure` of two constraints (so the reference model, validity and the reducer
+    treat it as such) whose realisation shares the object built for the common sub-tree and extends it
+    with += / -= / &= / |= / ^=.  Own stream: the scenarios generated above are what they were."""
+    r = random.Random(rng.random())
+    if r.random() >= p:
+        return ops
+    at = [j for j, o in enumerate(ops) if o["op"] in ("find_answer", "ensure") and not o.get("pin")]
+    if not at:
+        return ops
+    j = r.choice(at)
+    s = ops[j].get("s", 0)
+    decls = decls_after(ops[:j], n_sessions)[s]
+    if not decls:
+        return ops
+    g = refsem.Gen(r, decls)
+    if r.random() < 0.65:
+        kind = r.choice(AUG_INT)
+        top = kind if r.random() < 0.6 else r.choice(AUG_INT)
+        base = [top, g.gen_i(r.randint(1, 3)), g.nonlit(g.gen_i(r.randint(1, 3)), "I"), 0]
+        ext = g.nonlit(g.gen_i(r.randint(1, 4)), "I")
+        c1 = [r.choice(["le", "ge", "ne", "eq", "lt", "gt"]), base, ["c", g.const()], 0]
+        c2 = [r.choice(["le", "ge", "ne", "eq", "lt", "gt"]), [kind, base, ext, 0], ["c", g.const()], 0]
+    else:
+        kind = r.choice(AUG_BOOL)
+        top = kind if r.random() < 0.6 else r.choice(AUG_BOOL)
+        base = [top, g.gen_b(r.randint(1, 3)), g.nonlit(g.gen_b(r.randint(1, 3)), "B"), 0]
+        ext = g.nonlit(g.gen_b(r.randint(1, 4)), "B")
+        c1 = ["iff", base, g.leaf_b(True), 0] if r.random() < 0.6 else base
+        c2 = ["iff", [kind, base, ext, 0], g.leaf_b(True), 0] if r.random() < 0.6 else [kind, base, ext, 0]
+    for c in (c1, c2):
+        if not refsem.valid(c, decls, "B"):
+            return ops
+    aug = {"s": s, "op": "ensure", "cs": [c1, c2], "nest": 0, "aug": {"kind": kind, "split": r.random() < 0.7}}
+    return ops[:j] + [aug] + ops[j:]
+
+
+def _aug_parts(op):
+    """(base node in cs[0], extended node in cs[1]) when the op still has the shape add_augmented gave it."""
+    a = op.get("aug")
+    cs = op["cs"]
+    if not a or len(cs) != 2:
+        return None
+    n0 = cs[0][1] if cs[0][0] in refsem.CMP or cs[0][0] == "iff" else cs[0]
+    top1 = cs[1][1] if cs[1][0] in refsem.CMP or cs[1][0] == "iff" else cs[1]
+    if not isinstance(top1, list) or not isinstance(n0, list) or len(top1) < 3 or top1[0] != a.get("kind") or top1[0] not in AUG_INT + AUG_BOOL:
+        return None
+    if top1[1] != n0 or n0[0] not in AUG_INT + AUG_BOOL:
+        return None
+    return n0, top1
+
+
+def _ensure_augmented(res, S, op, b):
+    import operator
+
+    n0, top1 = _aug_parts(op)
+    iop = {"add": operator.iadd, "sub": operator.isub, "and": operator.iand, "or": operator.ior, "xor": operator.ixor}[top1[0]]
+    a = b.build(n0)
+    b.pre[id(n0)] = a
+    b.pre[id(top1[1])] = a
+    first = b.build(op["cs"][0])
+    split = op["aug"].get("split")
+    if split:
+        S.solver.ensure(first)
+        S.constraints.append(op["cs"][0])
+        S.models_cache = None
+    t = a
+    t = iop(t, b.build(top1[2]))
+    b.pre[id(top1)] = t
+    second = b.build(op["cs"][1])
+    if split:
+        S.solver.ensure(second)
+        S.constraints.append(op["cs"][1])
+    else:
+        S.solver.ensure(first, second)
+        S.constraints.extend(op["cs"])
+    res.hit("perturb:augmented_assignment_on_shared_node:" + top1[0])
 
 
 def add_rejected(rng, ops, p=0.08):
@@ -742,9 +831,12 @@ def _run_ops(sc, res, sessions, ctx, z3cap):
                 S.models_cache = None
             elif k == "ensure":
                 b = refsem.Builder(S.vars)
-                built = [b.build(c) for c in op["cs"]]
-                S.solver.ensure(*_nest(built, op.get("nest", 0)))
-                S.constraints.extend(op["cs"])
+                if _aug_parts(op) is not None:
+                    _ensure_augmented(res, S, op, b)
+                else:
+                    built = [b.build(c) for c in op["cs"]]
+                    S.solver.ensure(*_nest(built, op.get("nest", 0)))
+                    S.constraints.extend(op["cs"])
                 S.models_cache = None
                 for c in op["cs"]:
                     for t in refsem.tags(c):
